@@ -90,6 +90,10 @@ func (r *inReader) Read(p []byte) (int, error) {
 
 // the child: position-coded alphabets so loss, duplication and reordering
 // inside one descriptor's stream are visible
+// The child restores the default disposition of the signal it ends by: an
+// ignored SIGHUP or SIGINT is inherited through exec (a check started under
+// nohup, or in the background of a non-interactive shell, would otherwise see
+// the child survive its own signal, exit 0 and "Go returned nil").
 const childPerl = `$|=1; binmode STDIN; binmode STDOUT; binmode STDERR; my($o,$e)=(0,0);
 sub seq { my($base,$from,$n)=@_; join("", map { chr($base + (($_ + int($_/26)) % 26)) } $from..$from+$n-1) }
 sub wr { my($fh,$s)=@_; my $off=0; while($off<length($s)){ my $w=syswrite($fh,$s,length($s)-$off,$off); exit 99 unless defined $w; $off+=$w } }
@@ -99,7 +103,7 @@ for my $a (@ARGV) {
   elsif ($a eq "i")        { my $b; while(sysread(STDIN,$b,4096)){ wr(\*STDOUT,$b) } }
   elsif ($a =~ /^s(\d+)$/) { select(undef,undef,undef,$1/1000) }
   elsif ($a =~ /^x(\d+)$/) { exit $1 }
-  elsif ($a =~ /^k(\d+)$/) { kill $1, $$; select(undef,undef,undef,5); exit 0 }
+  elsif ($a =~ /^k(\d+)$/) { eval { require POSIX; POSIX::sigaction($1, POSIX::SigAction->new("DEFAULT")); POSIX::sigprocmask(POSIX::SIG_UNBLOCK(), POSIX::SigSet->new($1)); }; kill $1, $$; select(undef,undef,undef,5); exit 0 }
 }`
 
 func seq(base byte, n int) []byte {
